@@ -12,3 +12,4 @@ import RaftWal.Props.C18
 #print axioms RaftWal.C18.failed_delete_changes_nothing
 #print axioms RaftWal.C18.delete_returns_underlying_error
 #print axioms RaftWal.C18.store_returns_underlying_error
+#print axioms RaftWal.C18.skipped_range_condition_from_source
